@@ -15,6 +15,9 @@ SCHEMA = f'''<xs:schema {XS}>
  <xs:element name="r"><xs:complexType><xs:sequence>
    <xs:element name="item" type="B" maxOccurs="unbounded"/>
    <xs:element ref="gitem" minOccurs="0" maxOccurs="unbounded"/>
+   <xs:element name="bitem" type="B" block="extension" minOccurs="0" maxOccurs="unbounded"/>
+   <xs:element name="sa" minOccurs="0" maxOccurs="unbounded"><xs:complexType><xs:anyAttribute namespace="##other" processContents="strict"/></xs:complexType></xs:element>
+   <xs:element name="la" minOccurs="0" maxOccurs="unbounded"><xs:complexType><xs:anyAttribute namespace="##other" processContents="lax"/></xs:complexType></xs:element>
    <xs:element name="fix" type="xs:decimal" fixed="1.0" minOccurs="0"/>
    <xs:element name="u" minOccurs="0" maxOccurs="unbounded"><xs:simpleType><xs:union memberTypes="xs:int xs:string"/></xs:simpleType></xs:element>
    <xs:any namespace="##other" processContents="lax" minOccurs="0"/>
@@ -37,6 +40,11 @@ DOCS = [
     f'<r {XSI}><item k="1"><a>x</a></item><gitem k="5" xsi:type="E1"><a>x</a><sub k="6"/></gitem></r>',
     f'<r {XSI}><item k="1"><a>x</a></item><gitem k="5"><a>x</a></gitem><gitem k="5"><a>y</a></gitem></r>',
     '<gitem k="1"><a>x</a></gitem>', '<gitem k="1"><a>x</a><sub k="2"/></gitem>',
+    # a blocked xsi:type (an error every time, not only the first time the type is met on that declaration)
+    f'<r {XSI}><item k="1"><a>x</a></item><bitem k="8" xsi:type="E1"><a>x</a></bitem></r>', f'<r {XSI}><item k="1"><a>x</a></item><bitem k="8" xsi:type="E1"><a>x</a></bitem><bitem k="9" xsi:type="E1"><a>y</a></bitem></r>',
+    # attributes matched by a wildcard whose namespace is loaded on demand (XLink has a bundled fallback location): strict and lax, valid and invalid values
+    f'<r {XSI} xmlns:xlink="http://www.w3.org/1999/xlink"><item k="1"><a>x</a></item><sa xlink:type="simple"/></r>', f'<r {XSI} xmlns:xlink="http://www.w3.org/1999/xlink"><item k="1"><a>x</a></item><la xlink:show="sideways"/></r>',
+    f'<r {XSI} xmlns:xlink="http://www.w3.org/1999/xlink"><item k="1"><a>x</a></item><sa xlink:type="bogus"/><la xlink:type="simple"/></r>',
     # a union with lexically overlapping members: which member decodes a value must not depend on what was decoded before
     f'<r {XSI}><item k="1"><a>x</a></item><u>alpha</u><u>n/a</u></r>', f'<r {XSI}><item k="1"><a>x</a></item><u>1</u><u>01</u></r>', f'<r {XSI}><item k="1"><a>x</a></item><u>7</u></r>',
 ]
